@@ -153,16 +153,17 @@ def show(v) -> str:
 
 # ---------------------------------------------------------------------------------------------------
 # assignments (shared with the specification through the generated constants module)
-# vector leaves 1..4 = symbols a b c d, 5..7 = functions f(t) g(t) h(t); scalar leaves 1 = x, 2 = y, 3 = t
+# vector leaves 1..4 = symbols a b c d, 5..7 = functions f(t) g(t) h(t), 8 = p(2t), 9 = q(-t) (vector functions at a
+# scaled parameter: the tabulated derivative is the total t-derivative of the leaf); scalar leaves 1 = x, 2 = y, 3 = t
 ASSIGNS = (
-    (((1, 2, 2), (2, -1, 3), (-1, 3, 1), (3, 1, -2), (1, -2, 2), (2, 1, -1), (-1, 1, 3)),
-     ((0, 0, 0),) * 4 + ((2, 1, -1), (1, -3, 2), (3, 1, 1)),
+    (((1, 2, 2), (2, -1, 3), (-1, 3, 1), (3, 1, -2), (1, -2, 2), (2, 1, -1), (-1, 1, 3), (3, -1, 2), (-2, 3, 1)),
+     ((0, 0, 0),) * 4 + ((2, 1, -1), (1, -3, 2), (3, 1, 1), (2, -2, 4), (1, 2, -3)),
      (-3, 2, 3), (0, 0, 1)),
-    (((2, -3, 1), (1, 1, -2), (3, 2, 2), (-2, 1, 3), (2, 1, -3), (-1, 2, 2), (1, 3, -1)),
-     ((0, 0, 0),) * 4 + ((1, -1, 2), (2, 2, -1), (-1, 2, 1)),
+    (((2, -3, 1), (1, 1, -2), (3, 2, 2), (-2, 1, 3), (2, 1, -3), (-1, 2, 2), (1, 3, -1), (1, -2, 3), (3, 1, -1)),
+     ((0, 0, 0),) * 4 + ((1, -1, 2), (2, 2, -1), (-1, 2, 1), (-2, 4, 2), (-1, 1, 2)),
      (2, -3, -3), (0, 0, 1)),
 )
-VEC_NAMES = {1: "a", 2: "b", 3: "c", 4: "d", 5: "f", 6: "g", 7: "h"}
+VEC_NAMES = {1: "a", 2: "b", 3: "c", 4: "d", 5: "f", 6: "g", 7: "h", 8: "p(2t)", 9: "q(-t)"}
 SCAL_NAMES = {1: "x", 2: "y", 3: "t"}
 
 
@@ -227,6 +228,7 @@ class Pool:
         self.fun_classes = [VectorFunction(f"F{i}") for i in range(8)]
         self.funs = sorted((f(self.t) for f in self.fun_classes), key=id)
         self.fun_slots = [self.funs[i] for i in (1, 3, 6)]
+        self.scaled_funs = {8: VectorFunction("P")(2 * self.t), 9: VectorFunction("Q")(-self.t)}
         self._assign_cache = {}
 
     def touch(self) -> int:
@@ -243,6 +245,7 @@ class Pool:
         vec = {i + 1: self.syms[order[i]] for i in range(len(order))}
         for i in range(3):
             vec[5 + i] = self.fun_slots[forder[i]]
+        vec.update(self.scaled_funs)
         return {"vec": vec, "scal": {1: self.x, 2: self.y, 3: self.t}}
 
     # -- which id() orders a program can see ---------------------------------------------------------
@@ -383,7 +386,7 @@ def orders_for(prog, orders):
 
 
 def forders_for(prog):
-    used = sorted({k for op, k in prog if op == "vec" and k >= 5})
+    used = sorted({k for op, k in prog if op == "vec" and 5 <= k <= 7})
     seen, out = set(), []
     for p in itertools.permutations(range(3)):
         pat = tuple(sorted(used, key=lambda r: p[r - 5]))
